@@ -1,6 +1,89 @@
-"""C03 - violation reports name exactly the offending and the missing imports."""
+"""C03 - violation reports name exactly the offending and the missing imports.
+
+Shares the rule streams of C01 (report items instead of verdict classes) and adds a stream that compares the LITERAL lines of
+the real message with the lines the Lean model of message_generator.py produces (PtaModel/Message.lean; the theorems
+Pta.C03.line_of_item / text_lines_are_imports / text_lines_shape are about those lines)."""
+from __future__ import annotations
+
+from .. import gen
+from ..core import Ctx, Stream, digest, pmap
+from ..layers_common import layer_line
+from ..proto import dec, parse_answer, run_driver
+from ..rules_common import random_cases
 from . import c01
+
+ODD = ["a", "ab", "a b", "x,y", "a!", "é", "a#", "b", "ba", "a_b"]
+
+
+def _rule_text(case):
+    """('PASS'|'FAIL'|'ERR', literal lines) of the real code"""
+    from ..impl import make_graph, run_rule_ops
+
+    out = run_rule_ops(case["ops"], make_graph(case["nodes"], case["imps"], case.get("lim")))
+    return (out[0], out[1].split("\n") if out[0] == "FAIL" else [])
+
+
+def _layer_text(case):
+    from ..impl import LayerRule, make_graph
+    from ..layers_common import LOPS, make_arch
+
+    g = make_graph(case["nodes"], case["imps"], case.get("lim"))
+    try:
+        arch = make_arch(case["arch"])
+        r = LayerRule()
+        for op, arg in case["lops"]:
+            r = r.based_on(arch) if op == "based" else LOPS[op](r, arg)
+        r.assert_applies(g)
+    except AssertionError as e:
+        return ("FAIL", str(e).split("\n"))
+    except Exception:  # noqa: BLE001
+        return ("ERR", [])
+    return ("PASS", [])
+
+
+def text_stream(ctx: Ctx, stream: Stream, n: int):
+    from . import c05
+
+    rng = ctx.rng("text")
+    cases = []
+    for comps, strict in ((gen.PLAIN, True), (gen.ADVERSARIAL, False), (ODD, False)):
+        cases += [("rule", c) for c in random_cases(rng, n // 4, comps=comps, strict=strict, max_nodes=12, max_imports=10)]
+    while len([1 for k, _ in cases if k == "layer"]) < n // 4:
+        nodes = gen.random_tree(rng, max_nodes=14, comps=gen.IDENT_ADVERSARIAL)
+        if len(nodes) < 4:
+            continue
+        c = c05.make_case(rng, nodes, gen.random_imports(rng, nodes, 10))
+        if c:
+            cases.append(("layer", c))
+    rules = [c for k, c in cases if k == "rule"]
+    layers = [c for k, c in cases if k == "layer"]
+    impl = pmap(_rule_text, rules, ctx.jobs) + pmap(_layer_text, layers, ctx.jobs, chunk=100)
+    ans = run_driver([gen.rule_line(c) for c in rules] + [layer_line(c) for c in layers])
+    for c, (cls, lines), a in zip(rules + layers, impl, ans):
+        a = parse_answer(a)
+        stream.evaluations += 1
+        stream.count("impl:" + cls)
+        if cls != "FAIL":
+            continue
+        t = a.get("T", "")
+        model_lines = [dec(x) for x in t.split("|")] if t else []
+        if len(lines) >= 2:
+            stream.nontrivial.add(digest(lines))
+        if len(ctx.samples) < 6 and len(lines) >= 2:
+            ctx.samples.append({"message_lines": lines})
+        if lines != model_lines:
+            rec = {"kind": "correspondence-broken", "what": "correspondence: literal message lines = PtaModel.messageLines / messageLinesL",
+                   "theorem": "Pta.C03.line_of_item, text_lines_are_imports, text_lines_shape are statements about PtaModel.messageLines",
+                   "line": (gen.rule_line(c) if "ops" in c else layer_line(c))[:3000], "impl_lines": lines, "model_lines": model_lines}
+            if len(ctx.broken) < 10:
+                ctx.broken.append(rec)
 
 
 def run(ctx):
-    return c01.run(ctx, aspect="report")
+    rule = c01.run(ctx, aspect="report")
+    if not ctx.violations:
+        s = Stream(ctx, "literal message lines: real str(AssertionError) vs the model of message_generator.py (module rules and layer rules)")
+        text_stream(ctx, s, ctx.size(6000, 60000))
+        s.finish()
+    return rule + (" Literal-lines stream: random module rules (plain, adversarial and odd names with blanks, commas, non-ASCII) and layer rules; "
+                   "the message is split at newlines and compared as a list with the model's lines.")
